@@ -132,6 +132,11 @@ Definition st0 : state :=
   {| st_heap := nempty; st_reg := nempty; st_order := []; st_nitems := 0%N; st_mitems := 0%N;
      st_minptr := 18446744073709551615%N; st_maxptr := 0%N; st_tls := []; st_stack := [] |}.
 
+(* a threshold policy: what gc->mitems is set to, as a function of gc->nitems *)
+Definition policy := N -> N.
+(* the threshold policy of the pinned tree: gc->nitems + gc->nitems / 2 + 1 *)
+Definition mitems_3_2 (n : N) : N := (n + n / 2 + 1)%N.
+
 Section Step.
   Variables (tls_recurses mar_guarded : bool).
   (* fin_widens: GC_Set widens minptr/maxptr BEFORE its early return `if (gc->freelist isnt NULL) return;`
@@ -140,7 +145,10 @@ Section Step.
      widened for it) — read off the C text by tools/genx_gcmark.py *)
   Variable fin_widens : bool.
 
-  Definition next_mitems (n : N) : N := (n + n / 2 + 1)%N.      (* gc->nitems + gc->nitems / 2 + 1 *)
+  (* the threshold policy: gc->mitems = next_mitems (gc->nitems) after every sweep and removal.  It decides
+     only WHEN a collection runs; every theorem holds for every policy.  tools/genx_gcmark.py reads the
+     expression off GC_Sweep / GC_Rem (pinned tree: nitems + nitems / 2 + 1 = mitems_3_2 below) *)
+  Variable next_mitems : N -> N.
 
   (* GC_Mark; GC_Sweep with `extra` additional stack words *)
   Definition do_collect (s : state) (extra : list word) : outcome (state * list word) :=
